@@ -20,8 +20,12 @@ Zeros  == {Inp(FALSE, 0, 0), Inp(TRUE, 0, 0)}
 Nines(k) == P10(k) - 1
 Counts ==
      {<<0, 0, c>> : c \in {0, 1, 2, 9, 10, 99, 100, 999, 1000, 1001, 999949, 999950, 999999, 1000000, 1000001,
-                           Nines(9)}}
+                           Nines(9),
+                           127, 128, 129, 255, 256, 257, 511, 512, 513, 1023, 1024, 1025, 4095, 4096, 4097,     \* widths of hidden counters
+                           32767, 32768, 32769, 65535, 65536, 65537, 16777215, 16777216, 16777217}}              \* ... 2^15, 2^16, 2^24 (float)
 \cup {<<0, 1, 0>>, <<0, 1, 1>>, <<0, 2, 147483647>>, <<0, 2, 147483648>>, <<0, 4, 294967295>>, <<0, 4, 294967296>>,        \* 10^9, 10^9+1, 2^31, 2^32-1, 2^32
+      <<0, 2, 147483649>>, <<0, 4, 294967297>>,                                                        \* 2^31+1, 2^32+1
+      <<0, 9007199, 254740991>>, <<0, 9007199, 254740992>>, <<0, 9007199, 254740993>>,                \* 2^53-1, 2^53, 2^53+1 (double)
       <<0, 999, Nines(9)>>, <<0, 1000, 0>>, <<0, 1000, 1>>,                                           \* around 10^12
       <<0, 999999, Nines(9)>>, <<0, 1000000, 0>>, <<0, 1000000, 1>>,                                  \* around 10^15
       <<0, Nines(9), Nines(9)>>, <<1, 0, 0>>, <<1, 0, 1>>,                                            \* around 10^18
